@@ -235,6 +235,9 @@ def run(ctx: Ctx):
         ctx.check(0 <= p1 < p2 < p3, "R13.b", sk.func.key("splice"), "missing-variable block sits between the parameters and the body", f"{short} method template: the `missing_variables` argument is not spliced between the parameter unpacking and the body", sk.func.where())
 
     ctx.rule("R13.c", "missing_values: every requested name among states, parameters and all assignments is stored at its requested slot; the counter advances exactly on stores; the early exit follows the store", floor=6)
+    from .c18 import check_missing_values_passed_on
+
+    check_missing_values_passed_on(ctx, "R13.c")
     missing_values_discipline(ctx, "R13.c")
 
     ctx.rule("R13.d", "model - C drops exactly component C; C.to_ode() keeps exactly C", floor=2)
